@@ -52,6 +52,10 @@ EXPORTS = {
 }
 
 
+for _m in REG:
+    EXPORTS.update(getattr(_m, "EXPORTS", {}))
+
+
 def harness_files():
     out = []
     for (src, m, f, cfg, parent) in OVERLAYS:
